@@ -6,6 +6,7 @@ import (
 	"runtime"
 	"sort"
 	"strconv"
+	"strings"
 	"sync"
 	"sync/atomic"
 	"testing/synctest"
@@ -33,9 +34,25 @@ type Sched struct {
 	maxSteps  int64
 	stuck     string
 	enabled   map[string]bool
+	starve    map[string]int
 	liveBy    map[string]int
 	maxLiveBy map[string]int
 	baseOf    map[int64]string
+}
+
+// StarveSelf keeps the calling task from being scheduled for the next n
+// scheduling decisions (unless nothing else can run): a way to hold a task at
+// whatever yield point it reaches next while the others make progress.
+func (s *Sched) StarveSelf(n int) {
+	g := goid()
+	s.mu.Lock()
+	defer s.mu.Unlock()
+	if name, ok := s.names[g]; ok && n > 0 {
+		if s.starve == nil {
+			s.starve = map[string]int{}
+		}
+		s.starve[name] = n
+	}
 }
 
 // MaxLive returns the highest number of simultaneously live tasks with the
@@ -279,9 +296,27 @@ func (s *Sched) Loop() string {
 			continue
 		}
 		ids := make([]string, 0, len(s.parked))
+		var starved []string
 		for id, t := range s.parked {
 			if t.try == nil || t.try() {
+				if s.starve[id] > 0 {
+					starved = append(starved, id)
+					continue
+				}
 				ids = append(ids, id)
+			}
+		}
+		if len(ids) == 0 && len(starved) > 0 {
+			// nothing else can run: starvation ends
+			ids = starved
+			for _, id := range starved {
+				delete(s.starve, id)
+			}
+		}
+		for id := range s.starve {
+			s.starve[id]--
+			if s.starve[id] <= 0 {
+				delete(s.starve, id)
 			}
 		}
 		if len(ids) == 0 {
@@ -365,7 +400,32 @@ func (s *Sched) describeLocked() string {
 		names = append(names, n)
 	}
 	sort.Strings(names)
-	return fmt.Sprintf("parked=%v live=%v", ids, names)
+	// stacks of the blocked goroutines that are inside the system under test
+	buf := make([]byte, 1<<20)
+	n := runtime.Stack(buf, true)
+	var frames []string
+	for _, g := range strings.Split(string(buf[:n]), "\n\n") {
+		if !strings.Contains(g, "codenotary/immudb") {
+			continue
+		}
+		lines := strings.Split(g, "\n")
+		var keep []string
+		for i := 0; i < len(lines) && len(keep) < 9; i++ {
+			l := lines[i]
+			if i == 0 || strings.Contains(l, "codenotary/immudb") || strings.Contains(l, "verifsim/checks") {
+				if strings.HasPrefix(l, "\t") {
+					continue
+				}
+				if j := strings.Index(l, "("); j > 0 && i > 0 {
+					l = l[:j]
+				}
+				keep = append(keep, strings.TrimSpace(l))
+			}
+		}
+		frames = append(frames, strings.Join(keep, " < "))
+	}
+	sort.Strings(frames)
+	return fmt.Sprintf("parked=%v live=%v\nblocked goroutines:\n  %s", ids, names, strings.Join(frames, "\n  "))
 }
 
 // Decisions returns the number of scheduling decisions taken so far.
